@@ -7,7 +7,7 @@ import warnings
 from .common import Oracle, Suite, errname, hx, merge
 from .C02_formats import correspond_formats, replay_formats, search_formats
 
-GEN_UNITS = ["ShaCrypt", "B64"]
+GEN_UNITS = ["ShaCrypt", "B64", "FormatDigests"]
 LEAN_TARGETS = ["PasslibVerif.Props.C02", "PasslibVerif.Props.C02Formats"]
 ASSUMPTIONS = [
     "hashlib's MD5/SHA-256/SHA-512 are external C code: the theorems are about passlib's control structure over the FIPS 180-4 / RFC 1321 "
